@@ -87,6 +87,20 @@ pub fn run_c10(r: &mut Report) {
             r.case("parses-back", json!({"value": v}), "identical value", format!("{:?}", back), matches!(&back, Ok(x) if *x == v));
         }
     }
+    // values nested deeper than any parser limit (built in memory): the encoding is either the reference bytes or an error, never a
+    // truncated success
+    for depth in [100usize, 127, 128, 129, 130, 200, 1000] {
+        for kind in ["arrays", "objects", "mixed"] {
+            let mut v = json!(7);
+            for i in 0..depth { v = match (kind, i % 2) { ("arrays", _) | ("mixed", 0) => json!([v]), _ => json!({"k": v}) }; }
+            let got = canon(&v);
+            let mut want = vec![];
+            let ref_ok = reference(&v, &mut want).is_ok();
+            let ok = match &got { Ok(b) => ref_ok && *b == want, Err(e) => e.starts_with("Err") };
+            r.case("deep-nesting", json!({"depth": depth, "containers": kind}), "reference bytes, or an error", format!("{:?}", got.as_ref().map(|b| format!("{} bytes, last {:?}", b.len(), String::from_utf8_lossy(&b[b.len().saturating_sub(12)..]).to_string()))), ok);
+            std::mem::forget(v);   // dropping a 1000-deep serde_json value recurses; leak it instead
+        }
+    }
     // member order and whitespace of the source text do not matter
     let a: Value = serde_json::from_str(r#"{"b":[1, 2 ,3],"a":{"y":1,"x":"A"}}"#).unwrap();
     let b: Value = serde_json::from_str("{ \"a\" : {\"x\":\"A\", \"y\" :1}, \n\"b\":[1,2,3] }").unwrap();
